@@ -367,21 +367,21 @@ def writePageHeaderStatus (h : PageHeader) : Option Err := (writePageHeaderEnc h
 /-- a C string seen through its bytes: up to the first NUL -/
 def cstr (b : Bytes) : Bytes := b.takeWhile (· ≠ 0)
 
+/-- the bytes behind the data pointer `thrift_read_binary` returned (NULL: none) -/
+def bytesOf (o : Option Bytes) : Bytes :=
+  match o with
+  | none => []
+  | some b => b
+
 /-- the characters of the string `arena_strdup_thrift` returns (it is never NULL, allocation
-failure aside: a failed read yields `""`) -/
-def strdupBytes (d : Dec) : Bytes × Dec :=
-  match (readBinary d).1 with
-  | none => ([], (readBinary d).2.2)
-  | some b => (cstr b, (readBinary d).2.2)
+failure aside: a failed read yields `""`; the copy ends at the first NUL) -/
+def strdupBytes (d : Dec) : Bytes × Dec := (cstr (bytesOf (readBinary d).1), (readBinary d).2.2)
 
 /-- `arena_strdup_thrift` -/
 def strdupThrift (d : Dec) : Option Bytes × Dec := (some (strdupBytes d).1, (strdupBytes d).2)
 
 /-- `arena_bindup_thrift`: the bytes `len` describes (pointer NULL iff empty) -/
-def bindupThrift (d : Dec) : Bytes × Dec :=
-  match (readBinary d).1 with
-  | none => ([], (readBinary d).2.2)
-  | some b => (b, (readBinary d).2.2)
+def bindupThrift (d : Dec) : Bytes × Dec := (bytesOf (readBinary d).1, (readBinary d).2.2)
 
 /-- `for (i = 0; i < count; i++) out[i] = f(dec)` — not guarded by the status -/
 def readMany {α : Type} (f : Dec → α × Dec) : Nat → Dec → List α × Dec
@@ -423,11 +423,11 @@ def statisticsBody (ty : Nat) (fid : Int) (d : Dec) (s : Statistics) : Statistic
 /-- `parse_statistics` -/
 def parseStatistics (d : Dec) : Statistics × Dec := parseStruct (statisticsBody cfg) {} d
 
-/-- ghost: a second member of the `params` union / the LogicalType union is being written -/
-def noteMember (cur : LogicalType) (d : Dec) : Dec :=
-  match cur with
-  | .unknown => d
-  | _ => { d with overlay := true }
+/-- `lt->id = X` (and, for members with parameters, the writes into the `params` union).
+Second component: ghost flag "a member has been written before", i.e. the C union now holds an
+overlay of two members, which the model does not represent. -/
+def memberState (cur : LogicalType × Bool) (new : LogicalType) : LogicalType × Bool :=
+  (new, cur.2 || decide (cur.1 ≠ .unknown))
 
 def decimalBody (ty : Nat) (fid : Int) (d : Dec) (s : Int × Int) : (Int × Int) × Dec :=
   if fid = 1 then (((readI32 d).1, s.2), (readI32 d).2)
@@ -451,27 +451,27 @@ def integerBody (ty : Nat) (fid : Int) (d : Dec) (s : Int × Bool) : (Int × Boo
   else (s, skipField cfg ty d)
 
 /-- a member without parameters: `lt->id = X; thrift_skip(dec, type)` -/
-def plainMember (ty : Nat) (d : Dec) (cur new : LogicalType) : LogicalType × Dec :=
-  (new, skipField cfg ty (noteMember cur d))
+def plainMember (ty : Nat) (d : Dec) (cur : LogicalType × Bool) (new : LogicalType) : (LogicalType × Bool) × Dec :=
+  (memberState cur new, skipField cfg ty d)
 
-def logicalBody (ty : Nat) (fid : Int) (d : Dec) (s : LogicalType) : LogicalType × Dec :=
+def logicalBody (ty : Nat) (fid : Int) (d : Dec) (s : LogicalType × Bool) : (LogicalType × Bool) × Dec :=
   if fid = 1 then plainMember cfg ty d s .string
   else if fid = 2 then plainMember cfg ty d s .map
   else if fid = 3 then plainMember cfg ty d s .list
   else if fid = 4 then plainMember cfg ty d s .enum
   else if fid = 5 then
-    match parseStruct (decimalBody cfg) (0, 0) (noteMember s d) with
-    | (p, d1) => (.decimal p.1 p.2, d1)
+    match parseStruct (decimalBody cfg) (0, 0) d with
+    | (p, d1) => (memberState s (.decimal p.1 p.2), d1)
   else if fid = 6 then plainMember cfg ty d s .date
   else if fid = 7 then
-    match parseStruct (timeBody cfg) (false, .millis) (noteMember s d) with
-    | (p, d1) => (.time p.1 p.2, d1)
+    match parseStruct (timeBody cfg) (false, .millis) d with
+    | (p, d1) => (memberState s (.time p.1 p.2), d1)
   else if fid = 8 then
-    match parseStruct (timeBody cfg) (false, .millis) (noteMember s d) with
-    | (p, d1) => (.timestamp p.1 p.2, d1)
+    match parseStruct (timeBody cfg) (false, .millis) d with
+    | (p, d1) => (memberState s (.timestamp p.1 p.2), d1)
   else if fid = 10 then
-    match parseStruct (integerBody cfg) (0, false) (noteMember s d) with
-    | (p, d1) => (.integer p.1 p.2, d1)
+    match parseStruct (integerBody cfg) (0, false) d with
+    | (p, d1) => (memberState s (.integer p.1 p.2), d1)
   else if fid = 11 then plainMember cfg ty d s .null
   else if fid = 12 then plainMember cfg ty d s .json
   else if fid = 13 then plainMember cfg ty d s .bson
@@ -479,8 +479,11 @@ def logicalBody (ty : Nat) (fid : Int) (d : Dec) (s : LogicalType) : LogicalType
   else if fid = 15 then plainMember cfg ty d s .float16
   else (s, skipField cfg ty d)
 
-/-- `parse_logical_type` -/
-def parseLogicalType (d : Dec) : LogicalType × Dec := parseStruct (logicalBody cfg) .unknown d
+/-- `parse_logical_type`; the second component is the ghost overlay flag -/
+def parseLogicalType (d : Dec) : (LogicalType × Bool) × Dec := parseStruct (logicalBody cfg) (.unknown, false) d
+
+/-- ghost: record in the decoder that a union overlay happened -/
+def noteOverlay (clash : Bool) (d : Dec) : Dec := if clash then { d with overlay := true } else d
 
 def schemaElementBody (ty : Nat) (fid : Int) (d : Dec) (s : SchemaElement) : SchemaElement × Dec :=
   if fid = 1 then ({ s with type := some (readI32 d).1 }, (readI32 d).2)
@@ -494,7 +497,7 @@ def schemaElementBody (ty : Nat) (fid : Int) (d : Dec) (s : SchemaElement) : Sch
   else if fid = 9 then ({ s with fieldId := some (readI32 d).1 }, (readI32 d).2)
   else if fid = 10 then
     match parseLogicalType cfg d with
-    | (lt, d1) => ({ s with logicalType := some lt }, d1)
+    | (lt, d1) => ({ s with logicalType := some lt.1 }, noteOverlay lt.2 d1)
   else (s, skipField cfg ty d)
 
 /-- `parse_schema_element` -/
@@ -517,10 +520,13 @@ def encodingStatsBody (ty : Nat) (fid : Int) (d : Dec) (s : PageEncodingStats) :
 def parseEncodingStats (d : Dec) : PageEncodingStats × Dec := parseStruct (encodingStatsBody cfg) {} d
 
 /-- a list-valued field: keep the old value when the count is refused -/
+def optSet {σ α : Type} (set : σ → List α → σ) (s : σ) (o : Option (List α)) : σ :=
+  match o with
+  | none => s
+  | some xs => set s xs
+
 def setList {σ α : Type} (s : σ) (set : σ → List α → σ) (r : Option (List α) × Dec) : σ × Dec :=
-  match r.1 with
-  | none => (s, r.2)
-  | some xs => (set s xs, r.2)
+  (optSet set s r.1, r.2)
 
 def columnMetaDataBody (ty : Nat) (fid : Int) (d : Dec) (s : ColumnMetaData) : ColumnMetaData × Dec :=
   if fid = 1 then ({ s with type := (readI32 d).1 }, (readI32 d).2)
